@@ -57,7 +57,7 @@ def history_campaign(out, pid, plans, pclauses, antecedent, seed, mclauses=None,
         scope = plan["scope"]
         if plan.get("mc", True):
             r = C.model_check(scope, invariants=plan.get("invariants"), props=plan.get("props", ()), maxgens=plan.get("mc_maxgens"),
-                              simulate=plan.get("mc_simulate"), depth=plan.get("mc_depth", 14), seed=seed, timeout=plan.get("mc_timeout", 900))
+                              simulate=plan.get("mc_simulate"), depth=plan.get("mc_depth", 14), seed=seed, timeout=plan.get("mc_timeout", 420))
             out.add_model(r, "MhlHistoryMC/%s%s" % (scope, " (random walks)" if plan.get("mc_simulate") else ""))
         if plan.get("behaviours") is not None:
             behs = plan["behaviours"]
